@@ -70,6 +70,7 @@ class TLCResult:
 
 
 _job = 0
+_job_lock = __import__("threading").Lock()
 
 
 def run(module, cfg=None, workers=16, timeout=1800, env=None, simulate=None, depth=None,
@@ -78,8 +79,10 @@ def run(module, cfg=None, workers=16, timeout=1800, env=None, simulate=None, dep
     machinery failure (parse error, crash, timeout).  A violated invariant is *not* an error here:
     callers decide what it means."""
     global _job
-    _job += 1
-    meta = os.path.join(WORK, "tlc", f"{os.getpid()}_{_job}")
+    with _job_lock:
+        _job += 1
+        jobno = _job
+    meta = os.path.join(WORK, "tlc", f"{os.getpid()}_{jobno}")
     os.makedirs(meta, exist_ok=True)
     cmd = ["java", "-XX:+UseParallelGC", "-Xss" + stack]
     if heap:
